@@ -11,7 +11,7 @@ INNERS = {'sq': 'squared euclidean', 'eu': 'euclidean'}
 
 def kw_of(case):
     kw = {'inner_dist': INNERS[case['inner']]}
-    for k in ('window', 'penalty', 'psi', 'max_step', 'use_pruning'):
+    for k in ('window', 'penalty', 'psi', 'max_step', 'use_pruning', 'max_length_diff'):
         v = case.get(k)
         if v is not None:
             kw[k] = tuple(v) if isinstance(v, list) else v
@@ -40,7 +40,7 @@ def ref_of(case):
     if isinstance(psi, list):
         psi = tuple(psi)
     return oracles.dtw_ref(case['s1'], case['s2'], window=case.get('window'), penalty=case.get('penalty'), psi=psi,
-                           max_step=case.get('max_step'), inner_dist=INNERS[case['inner']], ndim=True)
+                           max_step=case.get('max_step'), max_length_diff=case.get('max_length_diff'), inner_dist=INNERS[case['inner']], ndim=True)
 
 
 def check_case(acc, E, case, full):
@@ -178,6 +178,11 @@ def universe(tier, seed, shard, nshards):
                         for inner in ('sq', 'eu'):
                             if pen is None or r == c:
                                 yield 'U-pruning-d%d' % nd, {'s1': s1, 's2': s2, 'ndim': nd, 'window': w, 'penalty': pen, 'inner': inner, 'use_pruning': True}
+                        if r != c and pen is None:
+                            # the length-difference limit counts points, not numbers: |r - c| against 1, 2 (also where |r - c| * d would exceed it)
+                            for mld in (1, 2):      # (0 means 'no limit' in the C settings: not expressible in both engines)
+                                yield 'U-mld-d%d' % nd, {'s1': s1, 's2': s2, 'ndim': nd, 'window': w, 'penalty': None, 'psi': None, 'max_step': None,
+                                                         'inner': 'sq' if w is None else 'eu', 'max_length_diff': mld}
 
 
 def matrix_universe(tier, seed, shard, nshards):
@@ -201,7 +206,8 @@ def matrix_universe(tier, seed, shard, nshards):
 def worker(acc, shard, nshards, tier, seed):
     E = Eng()
     for sub, case in universe(tier, seed, shard, nshards):
-        exp = check_case(acc, E, case, True)
+        # (max_length_diff is an option of the distance routines; the matrix / path routines are not asked for it)
+        exp = check_case(acc, E, case, case.get('max_length_diff') is None)
         # non-trivial: more than one dimension carries information (not a multiple of a single component)
         nt = case['ndim'] > 1 and any(len(set(p)) > 1 for p in list(case['s1']) + list(case['s2']))
         acc.case(sub, nontrivial=nt)
